@@ -1,4 +1,5 @@
 // Overlaid as a child module of flipdot_core::sign_type. C19.
+#![allow(dead_code, unused_imports, unused_variables, unused_results)]
 use super::*;
 
 pub(crate) const ALL: [SignType; 11] = [
